@@ -440,6 +440,8 @@ static int ri_evt(struct cat_object *o)
         }
         switch (u->state) {
         case CAT_UNSOLICITED_STATE_IDLE:
+                /* idle = no event in progress (what cat_get_processed_command / cat_is_unsolicited_event_buffered report) */
+                return u->cmd == NULL && u->cmd_type == CAT_CMD_TYPE_NONE;
         case CAT_UNSOLICITED_STATE_AFTER_FLUSH_RESET:
         case CAT_UNSOLICITED_STATE_AFTER_FLUSH_OK:
                 return 1;
@@ -698,6 +700,19 @@ static void scen_run(void)
 #endif
         }
 
+        /* ---- C10: "re-invokes the handler on a freshly formatted buffer" - whenever a machine ENTERS a formatting state (first
+         *      time, after NEXT, or after the flush that follows DATA_NEXT) it starts with the first variable ------------------ */
+        if (o->state == CAT_STATE_FORMAT_READ_ARGS && STATE != CAT_STATE_FORMAT_READ_ARGS)
+                CHK(C10, o->index == 0 && o->cmd != NULL && o->var == o->cmd->var, "(re-)formatting of a READ answer does not start with the first variable");
+        if (o->state == CAT_STATE_FORMAT_TEST_ARGS && STATE != CAT_STATE_FORMAT_TEST_ARGS)
+                CHK(C10, o->index == 0 && o->cmd != NULL && o->var == o->cmd->var, "(re-)formatting of a TEST answer does not start with the first variable");
+        if (o->unsolicited_fsm.state == CAT_UNSOLICITED_STATE_FORMAT_READ_ARGS && USTATE != CAT_UNSOLICITED_STATE_FORMAT_READ_ARGS)
+                CHK(C10, o->unsolicited_fsm.index == 0 && o->unsolicited_fsm.cmd != NULL && o->unsolicited_fsm.var == o->unsolicited_fsm.cmd->var,
+                    "(re-)formatting of an event's READ line does not start with the first variable");
+        if (o->unsolicited_fsm.state == CAT_UNSOLICITED_STATE_FORMAT_TEST_ARGS && USTATE != CAT_UNSOLICITED_STATE_FORMAT_TEST_ARGS)
+                CHK(C10, o->unsolicited_fsm.index == 0 && o->unsolicited_fsm.cmd != NULL && o->unsolicited_fsm.var == o->unsolicited_fsm.cmd->var,
+                    "(re-)formatting of an event's TEST line does not start with the first variable");
+
         /* ---- C11: flush discipline --------------------------------------------------------------- */
         CHK(C11, W.writes <= 1, "more than one io->write attempt in one call");
         if (W.writes == 1) {
@@ -803,18 +818,29 @@ static void scen_run(void)
                                 CHK(C13, u->state == CAT_UNSOLICITED_STATE_IDLE, "a terminal event-handler code did not end the event in progress (it would be processed again)");
                 }
 #endif
+                if (u->state == CAT_UNSOLICITED_STATE_IDLE)
+                        CHK(C13, u->cmd == NULL && u->cmd_type == CAT_CMD_TYPE_NONE, "the event FSM is idle, yet an event is still reported as in progress (observers stay BUSY for a finished event)");
                 if (USTATE == CAT_UNSOLICITED_STATE_AFTER_FLUSH_OK || USTATE == CAT_UNSOLICITED_STATE_AFTER_FLUSH_RESET)
                         CHK(C13, u->state == CAT_UNSOLICITED_STATE_IDLE, "the event in progress did not end after its final line");
         }
 
         /* ---- C14: hold ------------------------------------------------------------------------------- */
         if (STATE == CAT_STATE_HOLD) {
+                /* the only release request that can arise inside cat_service: an event handler returning HOLD_EXIT_OK / HOLD_EXIT_ERROR */
+                int evt_release = 0;
+#ifdef UHRET
+                if ((USTATE == CAT_UNSOLICITED_STATE_READ_LOOP || USTATE == CAT_UNSOLICITED_STATE_TEST_LOOP) &&
+                    ((UHRET) == CAT_RETURN_STATE_HOLD_EXIT_OK || (UHRET) == CAT_RETURN_STATE_HOLD_EXIT_ERROR))
+                        evt_release = 1;
+#endif
                 CHK(C14, W.reads == 0, "input consumed while the command is held");
+                if (!evt_release && SNAP.hold_exit_status == 0)
+                        CHK(C14, o->state == CAT_STATE_HOLD && o->hold_exit_status == 0, "a release appeared that nobody requested (no cat_hold_exit, no HOLD_EXIT_* from an event handler)");
                 if (o->state != CAT_STATE_HOLD) {
                         int requested = SNAP.hold_exit_status;
                         /* an event handler may have requested the release during this very call */
                         CHK(C14, o->state == CAT_STATE_FLUSH_IO_WRITE_WAIT && o->hold_state_flag == false, "leaving hold goes straight to the result code");
-                        CHK(C14, requested != 0 || W.hcalls > 0, "hold left without a release request");
+                        CHK(C14, requested != 0 || evt_release, "hold left without a release request");
                         if (requested > 0 && W.hcalls == 0) CHK(C14, G_buf[0] == 'O' && G_buf[1] == 'K' && G_buf[2] == 0, "release with OK status answers OK");
                         if (requested < 0 && W.hcalls == 0) CHK(C14, G_buf[0] == 'E' && G_buf[1] == 'R', "release with ERROR status answers ERROR");
                 } else {
@@ -932,6 +958,7 @@ static void scen_sample(void)
         S.varsel = (unsigned char)(S.cmdsel == 1 ? S.index[0] % 5 : 5); S.uvarsel = (unsigned char)(S.ucmdsel == 1 ? S.uindex[0] % 5 : 5);
         if (S.cmdsel == 1) S.index[0] = S.varsel; else if (STATE == 9 || STATE == 10 || STATE == 12) S.index[0] = 0;
         if (S.ucmdsel == 1) S.uindex[0] = S.uvarsel; else S.uindex[0] = 0;
+        if (USTATE == CAT_UNSOLICITED_STATE_IDLE && rnd(8)) { S.ucmdsel = 3; S.ucmdtype = 0; S.uvarsel = 5; S.uindex[0] = 0; }   /* idle: no event in progress */
         S.holdflag = (unsigned char)(STATE == CAT_STATE_HOLD); S.implflag = 0; S.crflag = (unsigned char)(STATE == 0 ? 0 : rnd(2));
         S.wbufsel = (unsigned char)rnd(3); S.uwbufsel = (unsigned char)rnd(3);
         S.wafter = (unsigned char)(1 + (rnd(2) ? 20 + rnd(4) : 24)); S.uwafter = (unsigned char)(7 + rnd(4));
